@@ -71,6 +71,7 @@ Definition run (cfg : list cfun) (fn : string) (a : list float) : list float :=
     if fn =? "conj" then pr (conj F64_ops (a0, a1)) else
     if fn =? "neg" then pr (neg F64_ops (a0, a1)) else
     if fn =? "inv" then pr (inv_ F64_ops (a0, a1)) else
+    if fn =? "proj" then pr (proj_ F64_ops (a0, a1)) else
     if fn =? "add" then pr (cadd F64_ops (a0, a1) (a2, a3)) else
     if fn =? "sub" then pr (csub F64_ops (a0, a1) (a2, a3)) else
     if fn =? "mul" then pr (mul_ F64_ops (a0, a1) (a2, a3)) else
